@@ -9,6 +9,7 @@ from hypothesis import strategies as st
 
 from checks import c05
 from vlib import build, edits, snapshot
+from vlib import strategies as vs
 from vlib.harness import REPO, PropertyViolation, run_property
 
 PROPERTY_ID = "C06"
@@ -30,7 +31,7 @@ ASSUMPTIONS = [
     "instruments without the 'SAMP' signature (true legacy) are outside this property's domain",
 ]
 REQUIRED_LABELS = {
-    "quick": ["edit_pf", "edit_mc", "edit_ctl", "edit_opt", "edit_cmid", "edit_pay", "edit_cell", "src_fixture", "src_project", "src_synth", "sampler_edit", "changed", "attr_sweep", "saved_before_edit", "embedded_edit", "duplicates", "edit_inside_one_of_identical_containers", "whole_object_replaced"],
+    "quick": ["edit_pf", "edit_mc", "edit_ctl", "edit_opt", "edit_cmid", "edit_pay", "edit_cell", "src_fixture", "src_project", "src_synth", "sampler_edit", "changed", "attr_sweep", "saved_before_edit", "embedded_edit", "duplicates", "edit_inside_one_of_identical_containers", "whole_object_replaced", "user_value_edit", "user_value_edit_via_alias"],
     "thorough": ["edit_pf", "edit_mc", "edit_ctl", "edit_opt", "edit_cmid", "edit_pay", "edit_cell", "edit_patf", "src_fixture", "src_project", "src_synth", "sampler_edit", "metamodule_edit", "embedded_edit", "changed", "fixture_sweep"],
 }
 
@@ -42,7 +43,7 @@ def exhaustive(tier):
 def plan(tier):
     n, per = (16, 60) if tier == "quick" else (16, 1500)
     descs = [{"kind": "random", "examples": per} for _ in range(n)]
-    for t in ("Sampler", "MetaModule", "NestedMeta", "SamplerEffect", "Duplicates"):
+    for t in ("Sampler", "MetaModule", "NestedMeta", "SamplerEffect", "Duplicates", "MetaUser"):
         for i in range(2):
             descs.append({"kind": "focus", "type": t, "examples": per})
     fs = c05.fixture_files()
@@ -85,6 +86,21 @@ def edit_case(draw, fixture=None, focus=None):
         for _ in range(draw(st.integers(2, 3))):
             ps["modules"].append(copy.deepcopy(dup))
         src = {"src": "project", "spec": ps}
+    elif focus == "MetaUser":
+        from checks import c15
+
+        src = {"src": "meta", "spec": draw(c15.meta_spec(1, in_project=False))}
+        obj = c05.load(base_bytes(src))
+        users = edits.user_value_targets(obj.module)
+        if not users:
+            # no exposed user controller with a usable target in this recipe: an ordinary payload edit instead
+            src["edits"] = [draw(edits.draw_edit(obj, focus=True))]
+        else:
+            i, alias, tmi, tname, c = draw(st.sampled_from(users))
+            via = alias if (alias and draw(st.integers(0, 2)) > 0) else None
+            src["edits"] = [["mod", -1, "pay", "m_user", i, via, draw(vs.edge_int(c.min, c.max)), tmi, c.name, c.min]]
+        src["saves"] = [draw(st.sampled_from([None, "read", "clone"]))]
+        return src
     elif focus == "SamplerEffect":
         src = {"src": "synth", "spec": draw(build.module_spec(in_project=False, depth=1, tname="Sampler").filter(lambda ms: ms["payload"].get("effect")))}
     elif focus is not None:
@@ -222,6 +238,10 @@ def run_case(ctx, case):
             labels.add("embedded_edit")
         if "_whole'" in flat:
             labels.add("whole_object_replaced")
+        if "'m_user'" in flat:
+            labels.add("user_value_edit")
+            if "'u_" in flat:
+                labels.add("user_value_edit_via_alias")
     s1 = snapshot.snap(obj)
     data = obj.read()
     back = c05.load(data)
